@@ -61,15 +61,16 @@ def gen(rng, ctx):
         cd = G.add_cycles(rng, cd, rng.randint(1, 4 if big else 3))
     if rng.random() < 0.3:
         cd = G.shuffle_nodes(rng, cd)
-    return {"c": cd, "tmpl": tmpl, "repeat": rng.random() < 0.2}
+    return {"c": cd, "tmpl": tmpl, "repeat": rng.random() < 0.2, "via": rng.choice(["graph", "graph", "sparse"])}
 
 
 def check(case, ctx):
     cg = ctx.cg
     cd = case["c"]
-    c = G.build(cg, cd, "graph")
+    c = G.build(cg, cd, case.get("via", "graph"))
     net = Net.of(c)
     ctx.count(f"tmpl:{case['tmpl']}")
+    ctx.count(f"via:{case.get('via', 'graph')}")
     cyc = has_cycle(net.succs)
     ctx.count("cyclic" if cyc else "acyclic")
     if len(net.types) > 16:
